@@ -23,7 +23,7 @@ from .core import SimCrash, SimLivelock, Violation
 
 CURRENT = None  # the active SimDisk (one per run)
 
-READ_KINDS = {"R1", "R2", "R3"}
+READ_KINDS = {"R1", "R2", "R3", "W5"}
 WRITE_KINDS = {"W1", "W2", "W3", "W4"}
 
 
@@ -54,6 +54,11 @@ class SimFileIO(_real_io.FileIO):
         name = sim.ctx.rel(self.name)
         if f is not None:
             kind = f["kind"]
+            if kind == "W5":
+                sim.fire(f)
+                sim.ctx.log("CRASH-at-read", name, k)
+                sim.crash()
+                raise SimCrash(f"at input read #{k}")
             if kind == "R2":
                 sim.fire(f)
                 sim.ctx.log("readinto", name, req, "EIO")
@@ -89,6 +94,11 @@ def _sim_fromfile(file, dtype=float, count=-1, sep="", offset=0, **kw):
         return _real_np.fromfile(file, dtype=dtype, count=count, sep=sep, offset=offset, **kw)
     k, f = sim.next_call("r")
     name = sim.ctx.rel(getattr(file, "name", "?"))
+    if f is not None and f["kind"] == "W5":
+        sim.fire(f)
+        sim.ctx.log("CRASH-at-read", name, k)
+        sim.crash()
+        raise SimCrash(f"at input read #{k}")
     if f is not None and f["kind"] == "R2":
         sim.fire(f)
         sim.ctx.log("fromfile", name, int(count), "EIO")
@@ -111,7 +121,8 @@ class SimDisk:
         self.budget = budget_per_op
         self.in_wrapped_write = False
         self.enospc = False  # sticky after W3 until free_space()
-        self.write_hook = None  # callable(kind, writer, size_before, size_after)
+        self.write_hook = None  # callable(kind, writer, payload, size_before, size_after, append_only)
+        self.crash_hook = None  # callable(): snapshot the disk at the crash instant
         self._saved = None
 
     # ---- installation
@@ -175,6 +186,10 @@ class SimDisk:
     def free_space(self) -> None:
         self.enospc = False
 
+    def crash(self) -> None:
+        if self.crash_hook is not None:
+            self.crash_hook()
+
     # ---- write side
     def _wrapped_write(self, kind, orig, writer, payload):
         k, f = self.next_call("w")
@@ -205,6 +220,7 @@ class SimDisk:
             if fk == "W1":
                 self.fire(f)
                 self.ctx.log("CRASH-after", kind, name, k)
+                self.crash()
                 raise SimCrash(f"after {kind} #{k}")
             if not append_only:
                 # emulation by truncation would be unsound; report what it is instead
@@ -216,6 +232,7 @@ class SimDisk:
                     fo.seek(size_before + j)
                 self.fire(f)
                 self.ctx.log("CRASH-torn", kind, name, k, j)
+                self.crash()
                 raise SimCrash(f"torn {kind} #{k} at byte {j}")
             if fk in ("W3", "W4"):
                 if j < grew:
